@@ -395,7 +395,7 @@ class WSDiscovery:
                 already_known_service.x_addrs = service.x_addrs
             if service.scopes is not None:
                 already_known_service.scopes = service.scopes
-            if service.types is not None:
+            if service.types:  # a message without Types element is read as an empty list
                 already_known_service.types = service.types
         elif service.metadata_version > already_known_service.metadata_version:
             self._logger.info(
